@@ -421,6 +421,12 @@ func (c *EvalCtx) evalBinary(e *EBinary) Val {
 			res.S = "(str.++ " + lt + " " + rt + ")"
 			return res
 		}
+		if ls == "Str" {
+			// uninterpreted strings: the same symbol the executor uses for s + t
+			c.x.e.ufun("str_cat", "(Str Str) Str")
+			res.S = "(str_cat " + lt + " " + rt + ")"
+			return res
+		}
 		res.S = "(+ " + lt + " " + rt + ")"
 	case "-":
 		res.S = "(- " + lt + " " + rt + ")"
